@@ -264,6 +264,8 @@ func init() {
 			}
 			r.AddSkel(skels[i], s)
 		}
+		// isolation from the caller's TypeSchemas (real ForType in the engine, override shared)
+		cc.RunForSharedFamily(r)
 		// scaffold (concrete, native): fresh tree per call, equal results, Resolve accepts, cycle error
 		runForScaffold(cc, r)
 		r.Bounds = append(r.Bounds, fmt.Sprintf("tag value = symbolic prefix of length <= %d over {a,Z,_,-,comma,double quote,backslash,space,1,.,$} followed by one of %d concrete option suffixes; fieldJSONInfo (real SSA) vs encoding/json's parseTag/isValidTag/tagOptions.Contains (real SSA of the standard library) composed as in encoding/json's typeFields; every path's tag class is also replayed against the real encoding/json via reflect.StructOf + json.Marshal", maxL, len(suffixes)))
